@@ -12,9 +12,11 @@ go build ./... || { echo "BUILD FAILS"; exit 2; }
 echo "-- demo with the change:"; go test -vet=off -count=1 ./$PKG/ 2>&1 | grep -E "^--- FAIL|^ok|^FAIL|^panic" | head -5
 mv $DEMO /tmp/demo_$ID.go
 echo "-- suite with the change:"; go test -vet=off -count=1 ./... 2>&1 | grep -v "no test files"
-git stash -q
+git diff > /tmp/change_$ID.diff          # (no git stash: the stash is shared by all worktrees of a repository)
+git apply -R /tmp/change_$ID.diff
 cp /tmp/demo_$ID.go $DEMO
 echo "-- demo without the change:"; go test -vet=off -count=1 ./$PKG/ 2>&1 | tail -1
-git checkout -q -- . ; git stash pop -q; 
+rm -f $DEMO; git apply /tmp/change_$ID.diff; cp /tmp/demo_$ID.go $DEMO
+
 cd /verif
 for c in $CHECKS; do echo "-- check $c:"; tools/try_seed.sh $c /tmp/seed-$ID/patch.diff; done
